@@ -2,6 +2,7 @@
 C20 -- per-adapter statistics describe exactly the matches that were applied.
 """
 import copy
+import re
 from collections import Counter, defaultdict
 
 from sim import engine, fmt, gen
@@ -145,6 +146,141 @@ def compare(name, label, json_adapters, tally, check_rc, any_rc):
     return out
 
 
+_NO_WILDCARDS = [False]  # set per case: with -N the N characters of an adapter are ordinary bases
+
+
+def eff_len(seq):
+    return len(seq) if _NO_WILDCARDS[0] else len(seq) - seq.count("N")
+
+
+SECTION = re.compile(r"^=== (First read: |Second read: )?Adapter (.+) ===$", re.M)
+
+
+def parse_text_adapters(text):
+    """{(which, adapter name): dict(trimmed=[..], tables={kind: {len: {err: n}}}, maxerr={kind: {len: v}},
+    bases={...} or None, allowed=str or None)} from the full text report."""
+    out = {}
+    heads = list(SECTION.finditer(text))
+    for k, m in enumerate(heads):
+        body = text[m.end() : heads[k + 1].start() if k + 1 < len(heads) else len(text)]
+        which = 2 if (m.group(1) or "").startswith("Second") else 1
+        sec = {"tables": {}, "maxerr": {}, "counts": {}, "bases": None, "allowed": [], "trimmed": None}
+        mt = re.search(r"; Trimmed: (\d+) times", body)
+        if mt:
+            sec["trimmed"] = [int(mt.group(1))]
+        ml = re.search(r"5' trimmed: (\d+) times; 3' trimmed: (\d+) times", body)
+        if ml:
+            sec["trimmed"] = [int(ml.group(1)), int(ml.group(2))]
+        lines = body.split("\n")
+        i = 0
+        while i < len(lines):
+            ln = lines[i]
+            if ln.startswith("Overview of removed sequences"):
+                kind = ln[len("Overview of removed sequences") :].strip()
+                kind = {"": "single", "(5')": "five", "(3' or within)": "three", "at 5' end": "five", "at 3' end": "three"}.get(kind, kind)
+                i += 2  # column header
+                tab, mx, cnt = {}, {}, {}
+                while i < len(lines) and lines[i].strip():
+                    f = lines[i].split("\t")
+                    length = int(f[0])
+                    cnt[length] = int(f[1])
+                    mx[length] = int(f[3])
+                    tab[length] = {e: int(c) for e, c in enumerate(f[4].split()) if int(c)}
+                    i += 1
+                sec["tables"][kind] = tab
+                sec["maxerr"][kind] = mx
+                sec["counts"][kind] = cnt
+            elif ln.startswith("Bases preceding removed adapters:"):
+                b = {}
+                for j in range(1, 6):
+                    key, val = lines[i + j].strip().split(": ")
+                    b["" if key == "none/other" else key] = val
+                sec["bases"] = b
+                i += 5
+            elif ln.startswith("No. of allowed errors:"):
+                rest = ln[len("No. of allowed errors:") :].strip()
+                sec["allowed"].append(rest if rest else lines[i + 1].strip())
+            i += 1
+        out[(which, m.group(2))] = sec
+    return out
+
+
+def expected_allowed(seq, rate, partial):
+    eff = eff_len(seq)
+    if not partial:
+        return str(int(rate * eff))
+    parts = []
+    prev = 1
+    cur = int(rate * 1) if eff >= 1 else 0
+    for L in range(2, eff + 1):
+        e = int(rate * L)
+        if e != cur:
+            parts.append((prev, L - 1, cur))
+            prev, cur = L, e
+    parts.append((prev, eff, cur))
+    out = []
+    for a, b, e in parts[:-1]:
+        out.append(f"{a}-{b} bp: {e}")
+    a, b, e = parts[-1]
+    out.append(f"{a} bp: {e}" if a == b else f"{a}-{b} bp: {e}")
+    return "; ".join(out)
+
+
+def compare_text(name, label, which, text_secs, json_adapters, tally):
+    """The text report must state the same matches as the tally of applied matches."""
+    out = []
+    for a in json_adapters:
+        sec = text_secs.get((which, a["name"]))
+        if sec is None:
+            out.append(C.V("text-report-adapter", f"{name}: {label} adapter {a['name']}: no section in the text report"))
+            continue
+        t = tally[a["name"]]
+        five, three = norm(t["five"]), norm(t["three"])
+        n5 = sum(sum(c.values()) for c in five.values())
+        n3 = sum(sum(c.values()) for c in three.values())
+        both = a["five_prime_end"] is not None and a["three_prime_end"] is not None
+        if a["linked"]:
+            want_trim = [n5, n3]
+        else:
+            want_trim = [n5 + n3]
+        if sec["trimmed"] != want_trim:
+            out.append(C.V("text-report-adapter", f"{name}: {label} adapter {a['name']}: text report says trimmed {sec['trimmed']} times but {want_trim} matches were applied"))
+        if n5 + n3 == 0:
+            continue
+        want_tables = {"five": five, "three": three} if both else {"single": five if a["five_prime_end"] else three}
+        for kind, want in want_tables.items():
+            got = sec["tables"].get(kind)
+            if got is None:
+                out.append(C.V("text-report-adapter", f"{name}: {label} adapter {a['name']}: table '{kind}' missing in the text report"))
+                continue
+            if got != want:
+                out.append(C.V("text-report-adapter", f"{name}: {label} adapter {a['name']} table '{kind}': text report {got} but the applied matches give {want}"))
+            for length, cnt in sec["counts"][kind].items():
+                if cnt != sum(got.get(length, {}).values()):
+                    out.append(C.V("text-report-adapter", f"{name}: {label} adapter {a['name']} table '{kind}' length {length}: count column {cnt} != sum of error counts"))
+            end = a["five_prime_end"] if kind in ("five",) or (kind == "single" and a["five_prime_end"]) else a["three_prime_end"]
+            seq = end["sequence"]
+            eff = eff_len(seq)
+            for length, v in sec["maxerr"][kind].items():
+                if v != int(end["error_rate"] * min(length, eff)):
+                    out.append(C.V("text-report-adapter", f"{name}: {label} adapter {a['name']} table '{kind}' length {length}: max.err {v} but int(rate*min(length, {eff}))={int(end['error_rate'] * min(length, eff))}"))
+        if sec["bases"] is not None:
+            tot = sum(t["adjacent"].values())
+            for b, val in sec["bases"].items():
+                want = f"{(t['adjacent'].get(b, 0) / tot if tot else 0):.1%}"
+                if val != want:
+                    out.append(C.V("text-report-adapter", f"{name}: {label} adapter {a['name']}: 'Bases preceding' {b or 'none/other'} {val} but the applied matches give {want}"))
+        ends = [e for e in (a["five_prime_end"], a["three_prime_end"]) if e]
+        if a["linked"] or not both:
+            wants = [expected_allowed(e["sequence"], e["error_rate"], e["error_lengths"] is not None) for e in ends]
+        else:
+            e = ends[0]
+            wants = [expected_allowed(e["sequence"], e["error_rate"], True)]
+        if sec["allowed"] != wants:
+            out.append(C.V("allowed-errors", f"{name}: {label} adapter {a['name']}: text report states allowed errors {sec['allowed']} but int(L*rate) gives {wants}"))
+    return out
+
+
 def error_ranges_clause(name, j):
     out = []
     for key in ("adapters_read1", "adapters_read2"):
@@ -154,7 +290,7 @@ def error_ranges_clause(name, j):
                 if not e or e["error_lengths"] is None:
                     continue
                 seq = e["sequence"]
-                eff = len(seq) - seq.count("N")
+                eff = eff_len(seq)
                 rate = e["error_rate"]
                 ls = e["error_lengths"]
                 for L in range(1, eff + 1):
@@ -165,7 +301,8 @@ def error_ranges_clause(name, j):
     return out
 
 
-def judge(case, res, name, outs=None, which="adapters_read1", label="R1", jsonpath="/simfs/report.json", json_from=None):
+def judge(case, res, name, outs=None, which="adapters_read1", label="R1", jsonpath="/simfs/report.json", json_from=None,
+          text_res=None):
     ip = info_path(case, outs)
     data = res.files.get(ip)
     if data is None:
@@ -186,6 +323,10 @@ def judge(case, res, name, outs=None, which="adapters_read1", label="R1", jsonpa
     except fmt.FormatError as e:
         return [C.V("info-unreadable", f"{name}: {e}")], 0
     out = compare(name, label, adapters, t, check_rc and label == "R1", any_rc)
+    if text_res is not None:
+        text = text_res.stdout.decode("latin-1") + "\n" + text_res.stderr
+        if "=== Summary ===" in text:
+            out += compare_text(name, label, 1 if label == "R1" else 2, parse_text_adapters(text), adapters, t)
     # reads with at least one applied match
     with_adapter = len({C.rid(f[0]) for f in rows})
     key = "read1_with_adapter" if label == "R1" else "read2_with_adapter"
@@ -216,12 +357,13 @@ def mirrored(case):
 
 def evaluate(case, ctx):
     files = engine.gen_files(case)
+    _NO_WILDCARDS[0] = any(g[0] == "-N" for g in case["opts"])
     ref = C.run_serial(case, ctx, files)
     if ref.exit == 2:
         raise engine.Discard("cli-rejected")
     if ref.exit != 0:
         raise engine.Discard("reference-run-failed")
-    viols, nrows = judge(case, ref, "serial")
+    viols, nrows = judge(case, ref, "serial", text_res=ref)
     j = C.load_json_report(ref)
     viols += error_ranges_clause("serial", j)
     case["meta"]["rows"] = nrows
@@ -231,7 +373,7 @@ def evaluate(case, ctx):
         mr = ctx.run("mirror", gen.build_argv(m, cores=1), mf, parallel=False)
         if mr.exit == 0:
             jm = dict(j)
-            v2, n2 = judge(m, mr, "serial", outs=m["outs"], which="adapters_read2", label="R2", json_from=j)
+            v2, n2 = judge(m, mr, "serial", outs=m["outs"], which="adapters_read2", label="R2", json_from=j, text_res=ref)
             viols += v2
             case["meta"]["rows"] += n2
         else:
@@ -245,7 +387,7 @@ def evaluate(case, ctx):
             raise engine.Discard("buffer-too-small")
         viols.append(C.V("exit-status", f"par: exit status {par.exit}; stderr tail {par.stderr[-300:]!r}"))
     else:
-        v3, _ = judge(case, par, "par")
+        v3, _ = judge(case, par, "par", text_res=par)
         viols += v3
         jp = C.load_json_report(par)
         for key in ("adapters_read1", "adapters_read2"):
